@@ -16,22 +16,22 @@ type UConst struct{ V constant.Value }
 
 // SpecEnv is the environment for evaluating a contract expression.
 type SpecEnv struct {
-	x      *Exec
-	vars   map[string]Value
-	st     *State
-	old    *State
-	guard  *Term // context guard for assumptions generated while evaluating
-	assume bool  // true: expression is being assumed (forall => fact); false: asserted (forall => skolem)
-	neg    bool  // polarity flipped
-	ante   []*Term
-	pos    token.Pos
-	errs   *[]string
-	noQuant bool
-	outerVars *[]*Term // non-nil inside the body of an assumed universal quantifier: inner universals are prenexed
+	x          *Exec
+	vars       map[string]Value
+	st         *State
+	old        *State
+	guard      *Term // context guard for assumptions generated while evaluating
+	assume     bool  // true: expression is being assumed (forall => fact); false: asserted (forall => skolem)
+	neg        bool  // polarity flipped
+	ante       []*Term
+	pos        token.Pos
+	errs       *[]string
+	noQuant    bool
+	outerVars  *[]*Term        // non-nil inside the body of an assumed universal quantifier: inner universals are prenexed
 	localFirst bool            // identifiers resolve to current local variables before parameters
 	shadow     map[string]bool // names bound by quantifiers (take precedence over locals)
-	fn     *ssa.Function
-	depth  int
+	fn         *ssa.Function
+	depth      int
 }
 
 func (e *SpecEnv) errorf(format string, a ...interface{}) {
@@ -755,6 +755,11 @@ func (e *SpecEnv) evalCall(n *ast.CallExpr) Value {
 	case "cap":
 		if v, ok := argv(0).(SliceV); ok && !v.Str {
 			return Scalar{T: v.Cap, Ty: tyInt}
+		}
+		if v, ok := argv(0).(Scalar); ok && v.Ty != nil {
+			if _, isChan := v.Ty.Underlying().(*types.Chan); isChan {
+				return Scalar{T: x.objGet(e.st, "Chan.cap", bv64, v.T), Ty: tyInt}
+			}
 		}
 		e.errorf("cap of non-slice")
 		return UnknownV{}
